@@ -152,6 +152,13 @@ def generate(seed: int, tier: str) -> Dict[str, Any]:
             muts.append({"kind": "set", "path": list(r.choice(secs)) + [r.choice([5, None, True, 1.5])], "value": r.choice([1, {}])})
         else:
             muts.append({"kind": "set", "path": [r.choice(["t1", "t2", "t3", "t4", "graph", "scheduler", "perf"])], "value": r.choice([None, [], "x", 5, {}])})
+    if r.chance(0.12):
+        # the free-form `flags` section accepts anything - also what only YAML can spell, and containers of it
+        muts.append({"kind": "set", "path": ["flags", r.choice(["d", "since", "x"])],
+                     "value": {"$yaml": r.choice(["date", "set", "datetime", "binary", "list_of_set", "dict_of_date"])}})
+    if r.chance(0.06):
+        # a rejected value whose text representation contains a set inside a container
+        muts.append({"kind": "set", "path": [r.choice(["version", "t2"])] if r.chance(0.5) else ["t2", "backend"], "value": {"$yaml": "list_of_set"}})
     world = E.gen_world(rng.stream("world"), n_agents=1, max_graphs=2, max_eps=6, odd_ids=False)
     texts = [E.gen_text(rng.stream("ops")) for _ in range(2)]
     labelled = [n["label"] for g in world["graphs"].values() for n in g["nodes"] if n.get("label")]
@@ -205,7 +212,9 @@ def build(p: Dict[str, Any]) -> Any:
             # values only YAML can spell (the CLI reads YAML): kept symbolic in the program
             import datetime as _dt
             m = dict(m, value={"date": _dt.date(2024, 1, 1), "binary": b"hi", "set": {"a", "b"},
-                               "datetime": _dt.datetime(2024, 1, 1, 12, 0, 0)}[m["value"]["$yaml"]])
+                               "datetime": _dt.datetime(2024, 1, 1, 12, 0, 0),
+                               "list_of_set": [{"alpha", "beta", "gamma", "delta", "epsilon"}],
+                               "dict_of_date": {"since": _dt.date(2024, 1, 1)}}[m["value"]["$yaml"]])
         if isinstance(m.get("value"), dict) and set(m["value"]) == {"$pow10"}:
             m = dict(m, value=10 ** int(m["value"]["$pow10"]))   # kept symbolic in the program: no decimal text exists for it
         cur = tree
@@ -282,9 +291,34 @@ def cli_validate(text: str) -> Dict[str, Any]:
                     rc2 = int(e.code or 0)
                 except Exception as e:  # noqa: BLE001
                     exc2 = "%s: %s" % (type(e).__name__, str(e)[:200])
+            # ... and its machine-readable mode (which runs the script in a subprocess and picks the JSON out of its output)
+            out3, err3 = io.StringIO(), io.StringIO()
+            rc3: Any = None
+            exc3 = None
+            import zlib
+            if zlib.crc32(text.encode("utf-8", "surrogatepass")) % 5 == 0:   # a fifth of the files: each costs an interpreter start
+                from vsim import REPO as _repo
+                saved_pp = os.environ.get("PYTHONPATH")
+                os.environ["PYTHONPATH"] = os.path.realpath(_repo) + (os.pathsep + saved_pp if saved_pp else "")
+                try:
+                    with contextlib.redirect_stdout(out3), contextlib.redirect_stderr(err3):
+                        try:
+                            rc3 = umbrella.main(["validate", "--json", path])
+                        except SystemExit as e:
+                            rc3 = int(e.code or 0)
+                        except Exception as e:  # noqa: BLE001
+                            exc3 = "%s: %s" % (type(e).__name__, str(e)[:200])
+                finally:
+                    if saved_pp is None:
+                        os.environ.pop("PYTHONPATH", None)
+                    else:
+                        os.environ["PYTHONPATH"] = saved_pp
+            else:
+                rc3 = "skipped"
         finally:
             os.chdir(cwd)
         return {"rc": rc, "out": out.getvalue(), "hashseed": os.environ.get("PYTHONHASHSEED"),
+                "umbrella_json": {"rc": rc3, "exc": exc3, "err": err3.getvalue()[-200:]},
                 "umbrella": {"rc": rc2, "out": out2.getvalue(), "err": err2.getvalue()[-300:], "exc": exc2},
                 "json_mode": {"rc": rcj, "exc": excj, "json_ok": json_ok, "err": errj.getvalue()[-200:]}}
     finally:
@@ -428,6 +462,13 @@ def execute(p: Dict[str, Any]) -> Dict[str, Any]:
                 bad("consistency:cli-json-vs-plain", "--json rc=%s (stderr %r), plain rc=%s" % (jm.get("rc"), jm.get("err"), res["rc"]))
             elif jm.get("json_ok") is False:
                 bad("consistency:cli-json-not-json", "--json printed something that is not JSON for an accepted file")
+        uj = res.get("umbrella_json") or {}
+        if uj and uj.get("rc") != "skipped":
+            stats["umbrella_json_runs"] = stats.get("umbrella_json_runs", 0) + 1
+            if uj.get("exc"):
+                bad("total:cli-umbrella-json:%s" % str(uj["exc"]).split(":")[0], "python -m clematis validate --json raised %s" % uj["exc"])
+            elif jm and not jm.get("exc") and (uj.get("rc") == 0) != (jm.get("rc") == 0):
+                bad("consistency:cli-umbrella-json-vs-script", "`clematis validate --json`: rc=%s (stderr %r); the script with --json: rc=%s" % (uj.get("rc"), uj.get("err"), jm.get("rc")))
         um = res.get("umbrella") or {}
         if um:
             if um.get("exc"):
